@@ -321,6 +321,64 @@ def cover_report(mod, hits):
 
 
 # ---------------------------------------------------------------- shard
+STUCK_SECONDS = {'quick': 60.0, 'thorough': 240.0}
+
+
+def start_stuck_watch(ctx, out, tier):
+    """A call into the library that never comes back leaves no event for any monitor to judge - the shard would sit
+    there until the parent's wall-clock watchdog kills it, and the run would be 'inconclusive'.  This thread samples
+    the main thread's stack every 5 s.  When the whole stack has been identical for STUCK_SECONDS and its innermost
+    Python frame is a line of mido itself (a blocking primitive - a socket read, a lock, a sleep - has no Python
+    frame of its own), the workload is waiting inside the library on one line: reported as a violation of the
+    promise every property makes implicitly, that a call returns; the stack is the witness.  A wait in the harness's
+    own code (schedulers, joins, device doubles) has a harness frame innermost and is left to the other watchdogs."""
+    import threading
+    from . import clock
+    mono = clock.real('monotonic')
+    main_ident = threading.main_thread().ident
+    need = STUCK_SECONDS[tier]
+    tick = threading.Event()
+
+    def watch():
+        last, since = None, mono()
+        while True:
+            tick.wait(5.0)
+            fr = sys._current_frames().get(main_ident)
+            if fr is None:
+                return
+            st = traceback.extract_stack(fr)
+            sig = tuple((f.filename, f.lineno, f.name) for f in st)
+            if sig != last:
+                last, since = sig, mono()
+                continue
+            if mono() - since < need or not st:
+                continue
+            # the innermost frame that is not the standard library's (socket.readinto, threading.wait, queue.get ... are
+            # what a blocking call looks like from Python): who is waiting?
+            stdlib = os.path.realpath(os.path.dirname(os.__file__)) + os.sep
+            inner = None
+            for f in reversed(st):
+                if not os.path.realpath(f.filename).startswith(stdlib) and not f.filename.startswith('<'):
+                    inner = f
+                    break
+            if inner is None or not os.path.realpath(inner.filename).startswith(REPO + os.sep):
+                continue
+            ctx.fail('no call into the library blocks for ever',
+                     f'stuck:{os.path.basename(inner.filename)}:{inner.name}',
+                     {'kind': 'stuck', 'note': 'not replayable by itself: re-run the check'},
+                     {'seconds_on_this_line': round(mono() - since), 'line': f'{os.path.basename(inner.filename)}:{inner.lineno} {inner.line}',
+                      'stack_tail': [f'{os.path.basename(f.filename)}:{f.lineno} {f.name}' for f in st[-8:]]})
+            res = ctx.result()
+            res['inconclusive'].append('the workload of this shard never got past a call into the library')
+            tmp = out + '.tmp'
+            with open(tmp, 'w') as f:
+                json.dump(res, f)
+            os.replace(tmp, out)
+            os._exit(0)
+    th = threading.Thread(target=watch, daemon=True, name='vmon-stuck-watch')
+    th.start()
+
+
 def shard_main(argv):
     pid, tier, seed, shard, nsh, out = argv
     seed, shard, nsh = int(seed), int(shard), int(nsh)
@@ -335,6 +393,7 @@ def shard_main(argv):
     limit = mod.TIMEOUT[tier]
     faulthandler.dump_traceback_later(max(limit - 5, 5), exit=False)
     cover = start_cover(mod)
+    start_stuck_watch(ctx, out, tier)
     try:
         mod.run(ctx)
         stop_cover(cover, ctx)
@@ -468,8 +527,11 @@ def run_shards(pid, tier, seed, mod):
 
     failed = drive(range(total), getattr(mod, 'MAXPAR', NCPU), final=False)
     if failed and stop['at'] is None:
-        # Retry once, one at a time (DESIGN 2.6).
-        drive(failed, 1, final=True)
+        # Retry once, one at a time (DESIGN 2.6) - a few of them: when many shards failed the cause is not the load on
+        # the machine, and retrying them all one after the other would take hours (each may run into its time limit again)
+        for i in failed[3:]:
+            problems.append(f'shard {i}: watchdog timeout or crash, not retried ({len(failed)} shards failed)')
+        drive(failed[:3], 1, final=True)
     if not problems and len(results) == total:
         import shutil
         shutil.rmtree(wdir, ignore_errors=True)
@@ -581,8 +643,8 @@ def main(argv):
                     return r.returncode
         apply_env_mode_in_child()
         ctx = Ctx(pid, body.get('tier', tier), body.get('seed', seed))
-        if isinstance(body.get('case'), dict) and body['case'].get('kind') == 'escaped':
-            print(f"this case records an exception that escaped from the library ({body.get('key')}); it has no input of its "
+        if isinstance(body.get('case'), dict) and body['case'].get('kind') in ('escaped', 'stuck'):
+            print(f"this case records an exception that escaped from the library, or a call into it that never returned ({body.get('key')}); it has no input of its "
                   f"own - re-run ./check {pid} --tier {body.get('tier', tier)} --seed {body.get('seed', seed)}")
             return 2
         try:
